@@ -360,6 +360,10 @@ op("broadcast_to", 1, lambda p, x: _np().broadcast_to(x, p["shape"]), lambda p, 
 # ---- joins (n-ary)
 op("concatenate", 3, lambda p, *xs: _np().concatenate(xs, axis=p["axis"]), lambda p, *xs: _sp().concatenate(xs, axis=p["axis"]),
    lambda rng, xs, ctx: {"axis": ctx["axis"]}, second="concat", minnd=1)
+op("concatenate_ca", 3, lambda p, *xs: _np().concatenate(xs, axis=p["axis"]),
+   lambda p, *xs: _sp().concatenate(xs, axis=p["axis"], compressed_axes=tuple(p["ca"])),
+   lambda rng, xs, ctx: None if xs[0].ndim < 2 else
+   {"axis": ctx["axis"], "ca": sorted(rng.sample(range(xs[0].ndim), rng.randint(1, xs[0].ndim - 1)))}, second="concat", minnd=2)
 op("stack", 3, lambda p, *xs: _np().stack(xs, axis=p["axis"]), lambda p, *xs: _sp().stack(xs, axis=p["axis"]),
    lambda rng, xs, ctx: {"axis": ctx["axis"]}, second="stack")
 
@@ -403,6 +407,8 @@ def _asformat(p, x):
     kw = {}
     if p["fmt"] == "gcxs" and p.get("ca") is not None:
         kw["compressed_axes"] = tuple(p["ca"])
+    if p.get("idt") and p["fmt"] in ("coo", "gcxs") and type(x).__name__ == "COO":
+        kw["idx_dtype"] = _np().dtype(p["idt"])
     return x.asformat(p["fmt"], **kw)
 
 
@@ -412,7 +418,7 @@ def gen_asformat(rng, xs, ctx):
     nd = xs[0].ndim
     if fmt == "gcxs" and nd >= 2 and rng.random() < 0.8:
         ca = sorted(rng.sample(range(nd), rng.randint(1, nd - 1)))
-    return {"fmt": fmt, "ca": ca}
+    return {"fmt": fmt, "ca": ca, "idt": rng.choice([None, None, "int8", "uint8", "int16"]) if fmt == "gcxs" else None}
 
 
 def _cca(p, x):
@@ -521,6 +527,8 @@ class Gen:
         self.wild = wild
         self.formats = formats
         self.nan = nan
+        self.narrow = 0.25   # share of operands built with int8 / uint8 / int16 coordinates
+        self.maxsize = 400
         self.inputs = []
         self.pool = []       # dict(ref=("in"|"st", i), val=ndarray|None, fill=known fill or None, ok=selectable)
         self.steps = []
@@ -530,6 +538,8 @@ class Gen:
         ext = (0, 1, 2, 3) if self.wild and rng.random() < 0.3 else (1, 2, 3)
         spec = vlib.gen_array_spec(rng, shape=shape, ndim=ndim, extents=ext, fills=(fill,) if fill is not None else FILLS,
                                    formats=(fmt,) if fmt else self.formats, max_ndim=4 if self.wild else 3)
+        if rng.random() < self.narrow and spec["format"] != "dok":
+            spec["idx_dtype"] = rng.choice(["int8", "uint8", "int16"])
         if self.nan:
             spec["dtype"] = "float64"
             spec["data"] = [float("nan") if rng.random() < 0.3 else v for v in spec["data"]]
@@ -653,7 +663,7 @@ class Gen:
                 return False
             if val is not None:
                 val = np.asarray(val)
-                if val.size > 400 or val.ndim > 5:
+                if val.size > self.maxsize or val.ndim > 5:
                     return False
         # fill of the result, when it can be told
         fill = None
@@ -810,6 +820,100 @@ def gen_directed(rng, tier):
     return cases
 
 
+def gen_narrow(rng, tier):
+    """index-width directed programs: GCXS/COO operands with int8 / uint8 coordinates whose nnz is just below the
+    dtype's maximum are joined (nnz crosses 127 / 255 while every extent still fits the narrow dtype) and the result
+    is re-compressed / transposed / reshaped / reduced / converted: indptr must still run from 0 to nnz"""
+    np = _np()
+    n = 36 if tier == "quick" else 300
+    bases = [("uint8", (8, 7, 6), 0.62, 129, 255), ("uint8", (9, 30), 0.7, 129, 255), ("int8", (6, 5, 4), 0.75, 65, 127),
+             ("int8", (5, 22), 0.8, 65, 127), ("uint8", (4, 4, 4, 3), 0.8, 129, 192)]
+    cases = []
+
+    def spec_for(idt, shape, dens, lo, hi, fmt, ca):
+        for _ in range(50):
+            x = np.array([[rng.choice([1, 2, 3, -1, -2]) if rng.random() < dens else 0 for _ in range(int(np.prod(shape)))]]).reshape(shape)
+            if lo <= np.count_nonzero(x) <= hi:
+                sp_ = dense_spec(x.tolist(), 0, fmt, ca)
+                sp_["idx_dtype"] = idt
+                return sp_
+        return None
+
+    for k in range(n):
+        idt, shape, dens, lo, hi = bases[k % len(bases)]
+        nd = len(shape)
+        fmt = "gcxs" if k % 5 else "coo"
+        ca = sorted(rng.sample(range(nd), rng.randint(1, nd - 1))) if fmt == "gcxs" else None
+        if fmt == "gcxs" and k % 3 == 0:
+            ca = [0]
+        g = Gen(rng, wild=False)
+        g.narrow = 0.0
+        g.maxsize = 2000
+        a = spec_for(idt, shape, dens, lo, hi, fmt, ca)
+        if a is None:
+            continue
+        g.add_spec(a)
+        second = 0
+        if rng.random() < 0.4:
+            b = spec_for(idt, shape, dens, lo, hi, fmt, ca)
+            if b is not None:
+                g.add_spec(b)
+                second = 1
+        join = rng.choice(["concatenate", "concatenate", "stack", "concatenate_ca"])
+        ax = 0 if rng.random() < 0.7 else rng.randint(0, nd - 1)
+        if join == "stack":
+            p = {"axis": 0}
+        elif join == "concatenate_ca":
+            p = {"axis": ax, "ca": sorted(rng.sample(range(nd), rng.randint(1, nd - 1)))}
+        else:
+            p = {"axis": ax}
+        if not g.try_step(join, force_p=p, force_args=[0, second]):
+            continue
+        j = len(g.pool) - 1
+        g.pool[j]["ok"] = True
+        v = g.pool[j]["val"]
+        for _ in range(rng.randint(1, 2)):
+            cur = len(g.pool) - 1
+            v = g.pool[cur]["val"]
+            if v is None or v.ndim < 2:
+                break
+            vd = v.ndim
+            choice = rng.choice(["cca", "transpose", "reshape", "sum", "max", "asformat", "T", "getitem", "tocoo", "flatten", "mul"])
+            if choice == "cca":
+                ok = g.try_step("change_compressed_axes", force_p={"ca": sorted(rng.sample(range(vd), rng.randint(1, vd - 1)))}, force_args=[cur])
+            elif choice == "transpose":
+                perm = list(range(vd))
+                rng.shuffle(perm)
+                ok = g.try_step("transpose", force_p={"axes": perm}, force_args=[cur])
+            elif choice == "reshape":
+                sh = list(v.shape)
+                i = rng.randint(0, vd - 2)
+                new = sh[:i] + [sh[i] * sh[i + 1]] + sh[i + 2:]
+                if len(new) == 1:
+                    new = [sh[0], -1]
+                ok = g.try_step("reshape", force_p={"shape": new}, force_args=[cur])
+            elif choice in ("sum", "max"):
+                ok = g.try_step(choice, force_p={"axis": rng.randint(0, vd - 1), "keepdims": False}, force_args=[cur])
+            elif choice == "asformat":
+                ok = g.try_step("asformat", force_p={"fmt": "gcxs", "ca": sorted(rng.sample(range(vd), rng.randint(1, vd - 1))), "idt": None}, force_args=[cur])
+            elif choice == "T":
+                ok = g.try_step("T", force_p={}, force_args=[cur])
+            elif choice == "getitem":
+                ok = g.try_step("getitem", force_p={"idx": [["s", None, None, None], ["s", 1, None, None]]}, force_args=[cur])
+            elif choice == "tocoo":
+                ok = g.try_step("tocoo", force_p={}, force_args=[cur])
+            elif choice == "flatten":
+                ok = g.try_step("flatten", force_p={}, force_args=[cur])
+            else:
+                ok = g.try_step("mul_scalar", force_p={"c": 2}, force_args=[cur])
+            if not ok:
+                break
+        c = g.program()
+        c["narrow"] = True
+        cases.append(c)
+    return cases
+
+
 def gen_programs(rng, tier):
     """(b): composed programs"""
     n = 240 if tier == "quick" else 3000
@@ -951,7 +1055,7 @@ def impl_run(case):
         except Exception as ex:  # noqa: BLE001
             r = ex
         return {"a": vlib.plain(a), "b": vlib.plain(b), "r": vlib.plain(r)}
-    ins = [vlib.build_array(s, dtype=s.get("dtype", "int64")) for s in case["inputs"]]
+    ins = [vlib.build_array(s, dtype=s.get("dtype", "int64"), idx_dtype=s.get("idx_dtype")) for s in case["inputs"]]
     outs = []
     res = []
     for st in case["steps"]:
@@ -980,7 +1084,7 @@ def render(case, upto):
     """a self-contained Python program reproducing steps 0..upto of a case"""
     lines = ["import numpy as np, sparse, sys; sys.path.insert(0, '/verif/tools'); import vlib; from props.c06 import OPS",
              "nan = float('nan')",
-             f"ins = [vlib.build_array(s, dtype=s.get('dtype', 'int64')) for s in {case['inputs']!r}]", "outs = []"]
+             f"ins = [vlib.build_array(s, dtype=s.get('dtype', 'int64'), idx_dtype=s.get('idx_dtype')) for s in {case['inputs']!r}]", "outs = []"]
     for st in case["steps"][:upto + 1]:
         lines.append(f"outs.append(OPS[{st['op']!r}]['sp']({st['p']!r}, *[ins[i] if k == 'in' else outs[i] for k, i in {st['args']!r}]))")
     lines.append("r = outs[-1]; print(type(r).__name__, {a: getattr(r, a, None) for a in "
@@ -995,7 +1099,7 @@ CODE_TEXT = {1: "raw result not in canonical/self-consistent form", 5: "GCXS row
 
 def campaign(build, tier, seed, report, budget=1):
     rng = random.Random(seed)
-    cases = (gen_directed(rng, tier) + gen_sweep(rng, tier) + gen_programs(rng, tier) + gen_ctor(rng, tier) + gen_csr(rng, tier)
+    cases = (gen_directed(rng, tier) + gen_narrow(rng, tier) + gen_sweep(rng, tier) + gen_programs(rng, tier) + gen_ctor(rng, tier) + gen_csr(rng, tier)
              + gen_cscnd(rng, tier) + gen_scipy(rng, tier))
     if budget > 1:
         cases += gen_programs(random.Random(seed + 1), tier) + gen_sweep(random.Random(seed + 2), tier)
@@ -1029,7 +1133,11 @@ def campaign(build, tier, seed, report, budget=1):
             pruned_in = all(is_pruned(plains[tuple(a)]) for a in st["args"])
             ref = c["refs"][si] if (not c.get("sweep") or c.get("with_ref")) else None
             kindtag = p.get("k")
-            tag(f"{'sweep' if c.get('sweep') else 'prog'}/{st['op']}/{kindtag}")
+            tag(f"{'sweep' if c.get('sweep') else 'narrow' if c.get('narrow') else 'prog'}/{st['op']}/{kindtag}")
+            if kindtag in ("coo", "gcxs"):
+                tag("idx_dtype/" + str(p.get("idx_dtype")))
+                if c.get("narrow") and kindtag == "gcxs":
+                    tag("narrow-nnz/" + ("over-dtype-max" if len(p["data"]) > (127 if "int8" == c["inputs"][0].get("idx_dtype") else 255) else "within"))
             if kindtag in ("coo", "gcxs", "dok"):
                 distinct.add(vlib.digest([st["op"], st["p"], [plains[tuple(a)] for a in st["args"]]]))
             if kindtag == "exc":
@@ -1178,7 +1286,7 @@ def campaign(build, tier, seed, report, budget=1):
     agg = {}
     for k, v in tags.items():
         parts = k.split("/")
-        kk = k if parts[0] in ("ctor", "csr", "verdict", "exc") else parts[0] + "/*/" + parts[-1]
+        kk = k if parts[0] in ("ctor", "csr", "verdict", "exc", "idx_dtype", "narrow-nnz", "cscnd") else parts[0] + "/*/" + parts[-1]
         agg[kk] = agg.get(kk, 0) + v
     cov["branch_tags"] = dict(sorted(agg.items()))
     cov["per_operation"] = dict(sorted(tags.items()))
